@@ -33,6 +33,10 @@ pub struct MtScript {
     pub rt_seed: u64,
     pub topics: Vec<TopicSpec>,
     pub gap_ms: u64,
+    /// messages are padded to this many bytes (frames larger than a datagram reach the server's
+    /// frame decoder in several reads)
+    #[serde(default)]
+    pub msg_size: usize,
 }
 
 pub fn gen_script(rng: &mut Rng) -> MtScript {
@@ -44,7 +48,7 @@ pub fn gen_script(rng: &mut Rng) -> MtScript {
     };
     let n = rng.usize(2, 3);
     let topics = names.into_iter().take(n).map(|name| TopicSpec { name, n_pubs: rng.usize(1, 2), n_subs: rng.usize(1, 2), msgs_per_pub: rng.usize(1, 12) }).collect();
-    MtScript { net: mild_net(rng), rt_seed: rng.next(), topics, gap_ms: *rng.pick(&[0u64, 0, 1, 20]) }
+    MtScript { net: mild_net(rng), rt_seed: rng.next(), topics, gap_ms: *rng.pick(&[0u64, 0, 1, 20]), msg_size: *rng.pick(&[0usize, 0, 900, 1_500, 5_000, 40_000]) }
 }
 
 type Received = Rc<RefCell<Vec<String>>>;
@@ -80,9 +84,17 @@ async fn scenario(world: Rc<World>, sc: MtScript) -> AResult<Vec<(usize, Vec<Str
             let mut publisher = ACTOR.scope(gp, pubc.publisher(&t.name).with_encoder(StringCodec).open()).await?;
             let n = t.msgs_per_pub;
             let gap = sc.gap_ms;
+            let size = sc.msg_size;
             tasks.push(tokio::task::spawn_local(ACTOR.scope(gp, async move {
                 for i in 0..n {
-                    if publisher.send(format!("T{ti}:P{p}:{i}")).await.is_err() {
+                    let mut m = format!("T{ti}:P{p}:{i}");
+                    if size > m.len() {
+                        m.push(';');
+                        while m.len() < size {
+                            m.push('x');
+                        }
+                    }
+                    if publisher.send(m).await.is_err() {
                         break;
                     }
                     if gap > 0 {
@@ -96,22 +108,39 @@ async fn scenario(world: Rc<World>, sc: MtScript) -> AResult<Vec<(usize, Vec<Str
     for t in tasks {
         let _ = t.await;
     }
-    let deadline = tokio::time::Instant::now() + Duration::from_secs(30);
+    // complete, or nothing has arrived anywhere for 120 virtual seconds (progress-based: large
+    // padded messages under heavy reordering travel at a few tens of kilobytes per second)
+    let total = |l: &Vec<(usize, Received)>| l.iter().map(|(_, g)| g.borrow().len()).sum::<usize>();
+    let mut last = total(&lists);
+    let mut deadline = tokio::time::Instant::now() + Duration::from_secs(120);
     loop {
         let done = lists.iter().all(|(ti, g)| g.borrow().len() >= sc.topics[*ti].n_pubs * sc.topics[*ti].msgs_per_pub);
         if done || tokio::time::Instant::now() >= deadline {
             break;
         }
         tokio::time::sleep(Duration::from_millis(100)).await;
+        let now = total(&lists);
+        if now != last {
+            last = now;
+            deadline = tokio::time::Instant::now() + Duration::from_secs(120);
+        }
     }
     tokio::time::sleep(Duration::from_millis(1000)).await;
-    Ok(lists.into_iter().map(|(ti, g)| (ti, g.borrow().clone())).collect())
+    // the padding is checked here and stripped, the oracle works on the labels
+    let strip = |m: &String| -> String {
+        match m.split_once(';') {
+            Some((label, pad)) if pad.bytes().all(|b| b == b'x') && m.len() == sc.msg_size => label.to_string(),
+            Some(_) => format!("GARBLED:{}", m.chars().take(40).collect::<String>()),
+            None => m.clone(),
+        }
+    };
+    Ok(lists.into_iter().map(|(ti, g)| (ti, g.borrow().iter().map(strip).collect())).collect())
 }
 
 pub fn execute(prop: &str, sc: &MtScript, opts: &ExecOpts) -> Outcome {
     let mut out = Outcome::default();
     let sc2 = sc.clone();
-    let res = run_world(sc.net, sc.rt_seed, Duration::from_secs(900), move |world| scenario(world, sc2));
+    let res = run_world(sc.net, sc.rt_seed, Duration::from_secs(7200), move |world| scenario(world, sc2));
     let mut th = Hasher64::default();
     match res {
         Err(e) => {
@@ -222,6 +251,11 @@ impl Family for MultiTopic {
                 c.topics[i].n_subs = 1;
                 out.push(c);
             }
+        }
+        if sc.msg_size > 0 {
+            let mut c = sc.clone();
+            c.msg_size = 0;
+            out.push(c);
         }
         if sc.net.loss_ppm > 0 || sc.net.dup_ppm > 0 || sc.net.jitter_ms > 0 {
             let mut c = sc.clone();
